@@ -283,4 +283,43 @@ theorem request_served_and_returned (fl : Flusher) (hooks : Bool) (tid : UInt16)
     have := C07_partial .tcp fl hooks (by simp) tid r resp hrep hok hmax script hs
     simpa [Returns, ClientKind.framing] using this
 
+theorem u8_high_bit (x : UInt8) (h : x.toNat < 128) : (x + 128) &&& 128 ≠ 0 := by
+  intro hc
+  have := congrArg UInt8.toNat hc
+  simp [UInt8.toNat_and, UInt8.toNat_add] at this
+  have h2 : (x.toNat + 128) % 256 = x.toNat + 128 := by omega
+  rw [h2] at this
+  have : (x.toNat + 128).testBit 7 = true := by
+    rw [Nat.testBit_eq_decide_div_mod_eq]; simp; omega
+  rename_i hand
+  have h7 := congrArg (fun n => n.testBit 7) hand
+  simp only [Nat.testBit_and, Nat.zero_testBit] at h7
+  rw [this] at h7
+  revert h7
+  decide
+
+/-- **client ↔ server, the error path (TCP)**: when the handler refuses a legal request with a typed Modbus error `c`,
+the server answers the exception frame addressed to the request, and the client - whatever the fragmentation - ends
+the call with exactly that exception: the request's transaction id, unit, function code, and the handler's code -/
+theorem handler_error_reaches_caller (fl : Flusher) (hooks : Bool) (tid : UInt16) (a : NewArgs) (r : Req)
+    (hwf : C01.WF a) (hnew : newReq a = .ok r) (hleg : Spec.legal a = true) (hkf : Driver.kfC09 a = none)
+    (h : Handler) (c : UInt8) (hh : h tid r = .typedErr c) (hfc : r.fc.toNat < 128)
+    (hexp : 9 ≤ r.expLen .tcp) (sp : Bytes) :
+    handleFrame h (r.bytes .tcp tid) sp = some (excBytesTCP tid r.unit r.fc c) ∧
+    ∀ script, Frag (excBytesTCP tid r.unit r.fc c) script →
+      (doExchange .tcp fl hooks (r.bytes .tcp tid) (r.expLen .tcp) false script).1 =
+        .err (.exc (.excT tid r.unit r.fc c)) := by
+  have hrt := (C09.C09_roundtrip_partial tid a r hwf hnew hleg hkf).2.1 sp
+  constructor
+  · show handleFrame h (r.bytesTCP tid) sp = _
+    unfold handleFrame
+    rw [hrt]
+    simp only [hh]
+  · intro script hs
+    have hx : excBytesTCP tid r.unit r.fc c = [hi8 tid, lo8 tid, 0, 0, hi8 3, lo8 3, r.unit, r.fc + 128, c] := rfl
+    have := exception_reply_tcp fl hooks (r.bytes .tcp tid) (r.expLen .tcp) _ (by rw [hx]; rfl)
+      (by rw [hx]; simpa using u8_high_bit r.fc hfc) hexp script hs
+    rw [this, hx]
+    simp
+
 end Modbus.Properties.C07
